@@ -1,4 +1,5 @@
 """C17 - copies and pickles of models and results behave like the original (DESIGN.md 4.10)."""
+import numpy as np
 from simkit import history, seeds
 from checks import c08
 
@@ -89,6 +90,8 @@ def run_case(case):
                              lm["model"]["reactions"]))[:600],
                 "nontrivial": True, "digest": dg, "sim_time": 0.0}
     out = c08.run_case(case)
+    if not out["violations"]:
+        out["violations"] += plain_result_pickle_probe(case, out["stats"])
     kinds = [o[0] for o in case["ops"]]
     out["nontrivial"] = any(k.startswith("restart") for k in kinds)
     rs = [x for x in case["base"]["reactions"]] + [o[1] for o in case["ops"] if o[0] == "add_reaction"]
@@ -97,6 +100,104 @@ def run_case(case):
         if rx.get("delay"):
             out["stats"]["dtype_" + rx["delay"]["type"]] = out["stats"].get("dtype_" + rx["delay"]["type"], 0) + 1
     return out
+
+
+def _queue_content(q, n_rxn):
+    c = q.py_copy()
+    out = []
+    amt = np.zeros(n_rxn)
+    for _ in range(c.py_get_num_cols() if hasattr(c, "py_get_num_cols") else 64):
+        t = c.py_get_next_queue_time()
+        c.py_get_next_reactions(amt)
+        out.append((float(t), amt.tolist()))
+        c.py_advance_time()
+    return out
+
+
+def plain_result_pickle_probe(case, stats):
+    """Results of plain simulations and the cell states they hand out survive pickling / deep copy with their data intact."""
+    import copy
+    import pickle
+    import warnings
+    import bioscrape.random as R_
+    from bioscrape.simulator import py_simulate_model
+    from simkit import refmodel as rm, netgen
+    m = case["base"]
+    viols = []
+    r = seeds.rng(case.get("pseed", 1), "result_pickle")
+    has_delay = any(x.get("delay") for x in m["reactions"])
+    mode = r.choice(["ssa", "volume", "volume"] + (["delay", "delayvolume", "delayvolume"] if has_delay else []))
+    kw = {"ssa": {}, "volume": {"volume": 1.7}, "delay": {"delay": True}, "delayvolume": {"delay": True, "volume": 0.6}}[mode]
+    lam = max(netgen.initial_lambda(m), 0.3)
+    horizon = netgen.cap_horizon(m, 4.0 / lam, max_events=800)
+    step = max(1, min(640, int(round(horizon / 4 * 64)))) / 64.0
+    grid = np.array([i * step for i in range(5)])
+    sig = {"stratum": "plain", "result_of": mode}
+
+    def bad(cls, **d):
+        viols.append({"class": cls, "signature": dict(sig), "detail": d})
+
+    try:
+        M = rm.to_bioscrape(m)
+        R_.py_seed_random((case.get("pseed", 1) & 0xFFFFFFFF) | 1)
+        with warnings.catch_warnings():
+            warnings.simplefilter("ignore")
+            res = py_simulate_model(grid, Model=M, stochastic=True, safe=True, return_dataframe=False, **kw)
+    except Exception:
+        return viols          # the simulation itself is other checks' business
+    n_rxn = len(m["reactions"])
+
+    def describe(o):
+        d = {"rows": np.array(o.py_get_result(), dtype=float).tolist(), "time": np.array(o.py_get_timepoints(), dtype=float).tolist()}
+        if hasattr(o, "py_get_volume"):
+            d["volume"] = np.array(o.py_get_volume(), dtype=float).tolist()
+            d["divided"] = int(o.py_cell_divided())
+        if hasattr(o, "py_get_delay_queue"):
+            d["queue"] = _queue_content(o.py_get_delay_queue(), n_rxn)
+        return d
+
+    def describe_cell(c):
+        d = {"state": np.array(c.py_get_state(), dtype=float).tolist(), "time": float(c.py_get_time())}
+        if hasattr(c, "py_get_volume"):
+            d["volume"] = float(c.py_get_volume())
+        if hasattr(c, "py_get_delay_queue") and c.py_get_delay_queue() is not None:
+            d["queue"] = _queue_content(c.py_get_delay_queue(), n_rxn)
+        return d
+
+    want = describe(res)
+    for how, f in (("pickle", lambda o: pickle.loads(pickle.dumps(o))), ("pickle2", lambda o: pickle.loads(pickle.dumps(o, protocol=2))),
+                   ("deepcopy", copy.deepcopy)):
+        try:
+            got = describe(f(res))
+        except Exception as e:
+            bad("result_pickle_failed", object=type(res).__name__, how=how, error=f"{type(e).__name__}: {str(e)[:160]}")
+            break
+        if got != want:
+            bad("pickled_result_differs", object=type(res).__name__, how=how,
+                field=[k for k in want if got.get(k) != want[k]][:3])
+            break
+    else:
+        stats["plain_result_pickles"] = stats.get("plain_result_pickles", 0) + 1
+    if hasattr(res, "py_get_final_cell_state") and not viols:
+        try:
+            cell = res.py_get_final_cell_state()
+            wantc = describe_cell(cell)
+        except Exception:
+            return viols
+        for how, f in (("pickle", lambda o: pickle.loads(pickle.dumps(o))), ("deepcopy", copy.deepcopy),
+                       ("pickle_of_pickle", lambda o: pickle.loads(pickle.dumps(pickle.loads(pickle.dumps(o)))))):
+            try:
+                gotc = describe_cell(f(cell))
+            except Exception as e:
+                bad("cell_state_pickle_failed", object=type(cell).__name__, how=how, error=f"{type(e).__name__}: {str(e)[:160]}")
+                break
+            if gotc != wantc:
+                bad("pickled_cell_state_differs", object=type(cell).__name__, how=how,
+                    field=[k for k in wantc if gotc.get(k) != wantc[k]][:3], original=wantc, restored=gotc)
+                break
+        else:
+            stats["plain_cell_state_pickles"] = stats.get("plain_cell_state_pickles", 0) + 1
+    return viols
 
 
 crash_signature = c08.crash_signature
